@@ -116,6 +116,10 @@ func svIntrinsic(fr *frame, fn *ssa.Function, args []value) (value, bool) {
 		nb := fr.i.newBlob(b.t, b.v)
 		blobOf(nb).enc = b.enc + 1
 		return nb, true
+	case "NominalSizes":
+		x.blobLen = int(asInt64(args[0]))
+		x.assumptions["note: serialised records have a nominal constant size (store gas is then a nominal number; only differences between the compared runs matter)"] = true
+		return nil, true
 	case "Unreachable":
 		panic(endPath{"harness: " + args[0].(string)})
 	case "Note":
